@@ -386,7 +386,9 @@ EvalNode(m, n) ==
     [] k = "str" -> Val(m, S(nd.cp))
     [] k = "var" ->
          LET loc == Lookup(m, m.env, nd.s) IN
-           IF loc = 0 THEN Throw(m, "RuntimeError", n) ELSE Val(m, m.store[loc])
+           IF loc = 0 THEN Throw(m, "RuntimeError", n)
+           ELSE IF m.store[loc].t = "undef" THEN Val(m, Poison)       \* read of a declared but undefined name
+           ELSE Val(m, m.store[loc])
     [] k = "self" ->
          LET loc == Lookup(m, m.env, "self") IN
            IF loc = 0 THEN Throw(m, "RuntimeError", n) ELSE Val(m, m.store[loc])
@@ -415,6 +417,15 @@ ExecNode(m, n) ==
            [PushK(m1, Frame("blk", n, 1, <<>>, m.env)) EXCEPT !.env = LastEnv(m1), !.ctl = Ctl("nxt", 0, Nil)]
     [] k = "module" ->
          [PushK(m, Frame("blk", n, 1, <<>>, m.env)) EXCEPT !.ctl = Ctl("nxt", 0, Nil)]
+    [] k = "session" ->
+         \* an interactive session (C19): the kids are the entries; an entry that ends in an uncaught error is
+         \* reported and the session goes on with everything defined so far
+         [PushK(m, Frame("sess", n, 1, <<>>, m.env)) EXCEPT !.ctl = Ctl("nxt", 0, Nil)]
+    [] k = "let" /\ m.k # <<>> /\ TopK(m).f = "sess" ->
+         \* a prompt entry declares its module-level name before the initialiser runs: if the initialiser raises the
+         \* name stays declared but undefined (reading it is outside the model, assigning it defines it)
+         LET m1 == Declare(m, m.env, nd.s, V("undef", 0, "", <<>>))
+         IN Ev(PushK(m1, Frame("letset", n, Len(m1.store), <<>>, m.env)), Kid(n, 1))
     [] k \in {"exprst", "let", "if", "return1", "raise"} ->
          Ev(PushK(m, Frame(k, n, 1, <<>>, m.env)), Kid(n, 1))
     [] k = "return0" -> [m EXCEPT !.ctl = Ctl("ret", n, Nil)]
@@ -484,6 +495,7 @@ ValueAt(m, v) ==
   CASE f = "exprst" -> Nxt(m0)
     [] f = "exprbody" -> [m0 EXCEPT !.ctl = Ctl("ret", n, v)]
     [] f = "let" -> Nxt(Declare(m0, m0.env, Node(n).s, v))
+    [] f = "letset" -> Nxt([m0 EXCEPT !.store[fr.i] = v])
     [] f = "un" ->
          IF Node(n).s = "!" THEN Val(m0, B(~Truthy(v)))
          ELSE IF IsNum(v) THEN Val(m0, Neg(v)) ELSE Throw(m0, "RuntimeError", n)
@@ -600,6 +612,9 @@ NextAt(m) ==
   CASE f = "blk" ->
          IF fr.i <= NKids(n) THEN Ex(PushK(m0, [fr EXCEPT !.i = @ + 1]), Kid(n, fr.i))
          ELSE [Nxt(m0) EXCEPT !.env = fr.e]
+    [] f = "sess" ->
+         IF fr.i <= NKids(n) THEN Ex(PushK(m0, [fr EXCEPT !.i = @ + 1]), Kid(n, fr.i))
+         ELSE [m0 EXCEPT !.st = "ok", !.ctl = Ctl("halt", 0, Nil)]
     [] f = "whilebody" -> Ev(PushK(m0, Frame("whilecond", n, 0, <<>>, m0.env)), Kid(n, 1))
     [] f = "foriter" ->
          IF fr.i < Len(fr.vs)
@@ -632,6 +647,10 @@ Unwind(m) ==
       [] sig = "ret" /\ f = "call" ->
            LET fnnode == m0.heap[fr.i].fn IN
              [Val(m0, IF Node(fnnode).s2 = "init" THEN fr.vs[1] ELSE m.ctl.v) EXCEPT !.env = fr.e]
+      [] sig = "thr" /\ f = "sess" ->
+           \* the prompt reports the error (marker line: code point 1 then the class name) and continues
+           [PushK(m0, fr) EXCEPT !.env = fr.e, !.ctl = Ctl("nxt", 0, Nil),
+                                 !.out = Append(@, <<1>> \o FnameCp(m.heap[m.heap[m.ctl.v.n].cls].name))]
       [] sig = "thr" /\ f = "try" ->
            \* try the catch clauses in order: kids 2.. are catch nodes (s = variable, s2 = class name or "")
            [PushK(m0, Frame("catchsel", fr.n, 2, <<m.ctl.v>>, fr.e)) EXCEPT !.env = fr.e, !.ctl = Ctl("sel", 0, m.ctl.v)]
@@ -665,7 +684,7 @@ StepFn(m) ==
   LET c == m.ctl IN
   CASE c.m = "ev" -> EvalNode(m, c.n)
     [] c.m = "ex" -> ExecNode(m, c.n)
-    [] c.m = "val" -> IF c.v.t = "poison" THEN [m EXCEPT !.st = "skip:number-outside-model", !.ctl = Ctl("halt", 0, Nil)]
+    [] c.m = "val" -> IF c.v.t = "poison" THEN [m EXCEPT !.st = "skip:outside-model", !.ctl = Ctl("halt", 0, Nil)]
                       ELSE IF m.k = <<>> THEN [m EXCEPT !.st = "model-error:val-empty", !.ctl = Ctl("halt", 0, Nil)]
                       ELSE ValueAt(m, c.v)
     [] c.m = "nxt" -> NextAt(m)
